@@ -254,6 +254,19 @@ func runReset(job *Job) Result {
 								o, v, obs := useB(x, c, b, cut)
 								a.st.Calls++
 								a.st.Pairs++
+								if v == "PANIC" || o > len(b) {
+									if len(a.viol) < job.MaxViol {
+										a.viol = append(a.viol, Violation{Prop: "C04", What: "parse on a reset object panics / returns an offset outside the buffer",
+											Cfg: c, Input: toInts(in), Text: fmt.Sprintf("%q stopped at %d (%s), reset, then %q", in, stop, va, b),
+											Cuts: []int{stop, cut}, Sig: "reset-sane:" + c.Kind, Detail: fmt.Sprintf("(%s,%d) %s", v, o, lastPanic)})
+									}
+								} else if _, bad := ObsChk(x, b, 0, true); bad != "" {
+									if len(a.viol) < job.MaxViol {
+										a.viol = append(a.viol, Violation{Prop: "C04", What: "field reported after a parse on a reset object cannot be dereferenced",
+											Cfg: c, Input: toInts(in), Text: fmt.Sprintf("%q stopped at %d (%s), reset, then %q", in, stop, va, b),
+											Cuts: []int{stop, cut}, Sig: "reset-deref:" + c.Kind, Detail: bad})
+									}
+								}
 								k := refKey{c.String(), bi, cut}
 								refMu.Lock()
 								ref, ok := refs[k]
